@@ -477,6 +477,132 @@ Section LimRel.
       { apply lim_bind; [apply IHs | intros [[rgt lv2] p2]; apply IHl]. }
       apply lim_refl.
   Qed.
+
+  (* ---------------------------------------------------------------- the level is the nesting *)
+  Notation ssub := (ssub is_space is_letter is_number to_lower case_sensitive ftype maxd stack data false).
+  Notation sexpr := (sexpr is_space is_letter is_number to_lower case_sensitive ftype maxd stack data false).
+  Notation sloop := (sloop is_space is_letter is_number to_lower case_sensitive ftype maxd stack data false).
+
+  Lemma ssub_S : forall f depth pos lv lvl, ssub (S f) depth pos lv lvl =
+        if over stack (S lvl) then RPanic else
+        if over maxd (S lvl) then RErr else
+        if eof pos then RErr else
+        do c <- cur pos;
+        if N.eqb c 40 then
+          do p1 <- skip_sp (S pos);
+          do st <- sexpr f (S depth) p1 lv (S lvl);
+          let '(((e, lv2), p2), l2) := st in
+          if eof p2 then RErr else
+          do c2 <- cur p2;
+          if negb (N.eqb c2 41) then err_unexpected p2
+          else do p3 <- skip_sp (S p2); ROk (((e, lv2), p3), pred l2)
+        else
+          do st <- simple_term pos;
+          let '(name, p1) := st in
+          if eq_fold_ascii name kw_not_r then
+            do st2 <- ssub f depth p1 lv (S lvl);
+            let '(((ch, lv2), p2), l2) := st2 in
+            ROk (((NotN ch, lv2), p2), pred l2)
+          else
+            do st2 <- field_operand name p1 lv;
+            let '((k, lv2), p2) := st2 in
+            do e <- and_tree (length lv) k;
+            ROk (((e, lv2), p2), lvl).
+  Proof. reflexivity. Qed.
+
+  Lemma sexpr_S : forall f depth pos lv lvl, sexpr (S f) depth pos lv lvl =
+        do st <- ssub f depth pos lv lvl;
+        let '(((high, lv2), p), l1) := st in
+        sloop f depth None high p lv2 l1.
+  Proof. reflexivity. Qed.
+
+  Lemma sloop_S : forall f depth low high pos lv lvl, sloop (S f) depth low high pos lv lvl =
+        do st <- simple_term pos;
+        let '(op, p1) := st in
+        let lop := map to_lower op in
+        if runes_eqb lop kw_and_r then
+          do st2 <- ssub f depth p1 lv lvl;
+          let '(((rgt, lv2), p2), l2) := st2 in
+          sloop f depth low (AndN high rgt) p2 lv2 l2
+        else if runes_eqb lop kw_or_r then
+          do st2 <- ssub f depth p1 lv lvl;
+          let '(((rgt, lv2), p2), l2) := st2 in
+          sloop f depth (Some (join_or low high)) rgt p2 lv2 l2
+        else
+          match op with
+          | [] =>
+            do fin <- (if eof p1 then ROk true
+                       else do c <- cur p1; ROk (N.eqb c 41 && Nat.ltb 0 depth));
+            if fin then ROk (((join_or low high, lv), p1), lvl) else err_unexpected p1
+          | _ => RErr
+          end.
+  Proof. reflexivity. Qed.
+
+  (* the result of the nesting-parameter model, with the level the state is left at *)
+  Definition tag {A} (lvl : nat) (r : R A) : R (A * nat) := do x <- r; ROk (x, lvl).
+
+  Lemma err_unexpected_bind : forall A B p (f : A -> R B),
+    rbind (err_unexpected p) f = err_unexpected p.
+  Proof.
+    intros A B p f. unfold Legacy.err_unexpected.
+    destruct (simple_term p) as [[w p']| | |]; cbn [rbind]; try reflexivity.
+    destruct w; cbn [rbind]; try reflexivity.
+    destruct (cur p); reflexivity.
+  Qed.
+
+  (* qp.level kept as state and restored on every return = the level passed down as the nesting
+     (one more per enclosing `(` / NOT): the level at which a sub-expression is parsed does not depend
+     on what was parsed before it, and each function leaves the level as it found it *)
+  Lemma st_all : forall f,
+    (forall d pos lv lvl, ssub f d pos lv lvl = tag lvl (gsub f d pos lv lvl)) /\
+    (forall d pos lv lvl, sexpr f d pos lv lvl = tag lvl (gexpr f d pos lv lvl)) /\
+    (forall d low high pos lv lvl,
+       sloop f d low high pos lv lvl = tag lvl (gloop f d low high pos lv lvl)).
+  Proof.
+    induction f as [|f [IHs [IHe IHl]]].
+    { repeat split; intros; reflexivity. }
+    split; [| split].
+    - intros d pos lv lvl. rewrite ssub_S, bsub_Sg. unfold tag.
+      destruct (over stack (S lvl)); [reflexivity|].
+      destruct (over maxd (S lvl)); [reflexivity|].
+      destruct (eof pos); [reflexivity|].
+      destruct (cur pos) as [c| | |]; cbn [rbind]; try reflexivity.
+      destruct (N.eqb c 40).
+      { destruct (skip_sp (S pos)) as [p1| | |]; cbn [rbind]; try reflexivity.
+        rewrite IHe. unfold tag.
+        destruct (gexpr f (S d) p1 lv (S lvl)) as [[[e lv2] p2]| | |]; cbn [rbind]; try reflexivity.
+        destruct (eof p2); [reflexivity|].
+        destruct (cur p2) as [c2| | |]; cbn [rbind]; try reflexivity.
+        destruct (negb (N.eqb c2 41)); [rewrite err_unexpected_bind; reflexivity|].
+        destruct (skip_sp (S p2)) as [p3| | |]; cbn [rbind]; reflexivity. }
+      destruct (simple_term pos) as [[name p1]| | |]; cbn [rbind]; try reflexivity.
+      destruct (eq_fold_ascii name kw_not_r).
+      { rewrite IHs. unfold tag.
+        destruct (gsub f d p1 lv (S lvl)) as [[[ch lv2] p2]| | |]; cbn [rbind]; reflexivity. }
+      destruct (field_operand name p1 lv) as [[[k lv2] p2]| | |]; cbn [rbind]; try reflexivity.
+      destruct (and_tree (length lv) k); cbn [rbind]; reflexivity.
+    - intros d pos lv lvl. rewrite sexpr_S, bexpr_Sg. rewrite IHs. unfold tag.
+      destruct (gsub f d pos lv lvl) as [[[high lv2] p]| | |]; cbn [rbind]; try reflexivity.
+      rewrite IHl. reflexivity.
+    - intros d low high pos lv lvl. rewrite sloop_S, bloop_Sg.
+      destruct (simple_term pos) as [[op p1]| | |]; cbn [rbind]; try reflexivity.
+      cbv zeta.
+      destruct (runes_eqb (map to_lower op) kw_and_r).
+      { rewrite IHs. unfold tag.
+        destruct (gsub f d p1 lv lvl) as [[[rgt lv2] p2]| | |]; cbn [rbind]; try reflexivity.
+        rewrite IHl. reflexivity. }
+      destruct (runes_eqb (map to_lower op) kw_or_r).
+      { rewrite IHs. unfold tag.
+        destruct (gsub f d p1 lv lvl) as [[[rgt lv2] p2]| | |]; cbn [rbind]; try reflexivity.
+        rewrite IHl. reflexivity. }
+      destruct op; [| reflexivity].
+      unfold tag.
+      destruct (eof p1); cbn [rbind].
+      + reflexivity.
+      + destruct (cur p1) as [c| | |]; cbn [rbind]; try reflexivity.
+        destruct (N.eqb c 41 && Nat.ltb 0 d); [reflexivity|].
+        rewrite err_unexpected_bind. reflexivity.
+  Qed.
 End LimRel.
 
 Lemma legacy_limit_or_v0 :
@@ -548,4 +674,22 @@ Proof.
   intros is_space is_letter is_number to_lower cs ftype q e lv H.
   destruct (parse_denotes_min e) as [t [Hp [Hd _]]].
   exists t. split; [| exact Hd]. rewrite (legacy_refines _ _ _ _ _ _ _ _ _ H). rewrite Hp. reflexivity.
+Qed.
+
+(* ParseQuery with qp.level as restored state = ParseQuery with the level as nesting parameter *)
+Lemma legacy_level_is_nesting :
+  forall (is_space is_letter is_number : N -> bool) (to_lower : N -> N) (case_sensitive : bool)
+         (ftype : bytes -> N) (maxd stack : option nat) (q : bytes),
+    legacy_parse_st is_space is_letter is_number to_lower case_sensitive ftype maxd stack false q
+    = legacy_parse is_space is_letter is_number to_lower case_sensitive ftype maxd stack q.
+Proof.
+  intros. unfold legacy_parse_st, legacy_parse.
+  destruct (runes_of q) as [data| | |]; cbn [rbind]; try reflexivity.
+  unfold build_ast_st, build_ast.
+  destruct (skip_sp is_space data 0) as [p0| | |]; cbn [rbind]; try reflexivity.
+  destruct (st_all is_space is_letter is_number to_lower case_sensitive ftype maxd stack data
+                   (pfuel data)) as [_ [He _]].
+  rewrite He. unfold tag.
+  destruct (bexpr is_space is_letter is_number to_lower case_sensitive ftype maxd stack data
+                  (pfuel data) 0 p0 [] 0) as [[[e lv] p]| | |]; reflexivity.
 Qed.
